@@ -198,10 +198,16 @@ Section Gen.
     | 2 => N.eqb x 0 && N.eqb y 1
     | _ => N.eqb x 1 && N.eqb y 1
     end.
-  (* repaired: the planetary table is the astronomical one with lon shifted by pi,
-     so the interval must be shifted by two quarter turns *)
+  (* repaired (fixes/C12-1.patch): toast_tile_for_point hands the level-1 test the longitude
+     (lon + pi) % 2pi for the planetary system; for lon in the interior of interval q that is
+     interval (q + 2) mod 4 *)
   Definition level1_hit_fixed (cs : coordsys) (q : N) (t : gtile) : bool :=
     level1_hit_coded ((q + lshift cs) mod 4) t.
+
+  (* the level-1 loop of toast_tile_for_point with the interval index [q1] of the longitude
+     that is handed to the level-1 test *)
+  Definition level1_pick (cs : coordsys) (q1 : N) : gtile :=
+    pick_first0 bool (fun b => b) (level1_hit_coded q1) (level1 cs) (l1_default cs).
 
   (* ---- _libtoasty.pyx:44-93 _subsample; npix = 2^k; (i, j) = (row, column).
      Argument order of the mid calls as in the .pyx (le and lo differ from _div4). *)
@@ -237,7 +243,7 @@ Arguments cst_loop {P}. Arguments create_single_tile {P}.
 Arguments postfix_corner {P}. Arguments generate_tiles_filtered {P}. Arguments generate_tiles {P}.
 Arguments pick_first0 {P Sc}. Arguments pick_child {P Sc}. Arguments lookup_desc {P} mid {Sc}.
 Arguments lookup {P} base mid {Sc}.
-Arguments level1_hit_coded {P}. Arguments level1_hit_fixed {P}.
+Arguments level1_hit_coded {P}. Arguments level1_hit_fixed {P}. Arguments level1_pick {P}.
 Arguments subsample {P}. Arguments tile_coords {P}.
 Arguments b_eq {P}. Arguments b_north {P}. Arguments b_south {P}.
 
